@@ -12,6 +12,7 @@
 -/
 import YashModel.Common.Proto
 import YashModel.Kernel.Model
+import YashModel.Kernel.Pipe
 import YashModel.Kernel.Signal
 open YashModel YashModel.Kernel YashModel.Proto
 
@@ -92,20 +93,20 @@ def runOp (k : K) (t : String) : K × String :=
     | _, _ => (k, "?")
   | ["read", fd, n] =>
     match fd.toNat?, n.toNat? with
-    | some fd, some n => match read k fd n with
+    | some fd, some n => match readAny k fd n with
       | .ok bs k' => (k', "=" ++ showBytes bs)
       | .err e => (k, errS e)
     | _, _ => (k, "?")
   | ["write", fd, h] =>
     match fd.toNat?, parseBytes h with
-    | some fd, some bs => match write k fd bs with
+    | some fd, some bs => match writeAny k fd bs with
       | .ok n k' => (k', s!"={n}")
       | .err e => (k, errS e)
     | _, _ => (k, "?")
   | ["seek", fd, w, d] =>
     let wh : Option Whence := match w with | "s" => some .set | "c" => some .cur | "e" => some .end_ | _ => none
     match fd.toNat?, wh, d.toInt? with
-    | some fd, some wh, some d => match seek k fd wh d with
+    | some fd, some wh, some d => match seekAny k fd wh d with
       | .ok (some n) k' => (k', s!"={n}")
       | .ok none k' => (k', "dir")
       | .err e => (k, errS e)
@@ -150,7 +151,7 @@ def runOp (k : K) (t : String) : K × String :=
   | ["fstat", fd] =>
     match fd.toNat? with
     | some fd => match fstat k fd with
-      | .ok n => (k, showNode n)
+      | .ok n => (k, if (getOfd k fd).any (·.2.pipe) then "=fifo" else showNode n)
       | .error e => (k, errS e)
     | none => (k, "?")
   | ["stat", p] =>
@@ -164,6 +165,17 @@ def runOp (k : K) (t : String) : K × String :=
       | .ok ns => (k, "=" ++ (if ns.isEmpty then "-" else ",".intercalate (sortStrings ns)))
       | .error e => (k, errS e)
   | ["cwd"] => (k, "=" ++ showPath k.cwd)
+  | ["pipe"] =>
+    match pipe' k with
+    | .ok (r, w) k' => (k', s!"={r},{w}")
+    | .err e => (k, errS e)
+  | ["nb", fd] =>
+    match fd.toNat? with
+    | some fd => match setNonblock k fd true with
+      | .ok b k' => (k', if b then "=1" else "=0")
+      | .err e => (k, errS e)
+    | none => (k, "?")
+  | ["rlim"] => (k, s!"={k.limit}")
   | ["acc", fd] =>
     match fd.toNat? with
     | some fd => match getOfd k fd with
@@ -191,7 +203,7 @@ def showFds (k : K) : String :=
     | some e, some (_, o) =>
       let acc := if o.rd && o.wr then "rw" else if o.wr then "w" else "r"
       let off := match lookup k.tree o.path with
-        | some (.reg _ _) => toString o.off
+        | some (.reg _ _) => if o.pipe then "ESPIPE" else toString o.off
         | _ => "d"
       some s!"{fd}:{acc}:{if e.cloexec then "e" else "-"}:{off}"
     | _, _ => none
